@@ -32,8 +32,16 @@ linearly ordered field `R` (`ℚ`, `ℝ`):
   the kernel reducible) and `invariant_restrict` (then every invariant weight restricted to a
   level set is again invariant, so the invariant law is not unique).
 
-What is **not** here: aperiodicity and convergence `μ Kᵐ → π` (total variation); see
-`design_notes/C19.md`.
+* `exists_other_invariant_prob` : with a non-constant conserved quantity and a positive
+  invariant weight there is a second invariant probability vector.
+* `Primitive K` (all `m`-step probabilities positive from some `m` on), `primitive_of_loop`,
+  `primitive_iter`, `primitive_mix_left`, and the quantitative convergence theorem
+  `geometric_convergence`: for a stochastic primitive kernel `‖μ Kᵗ − π‖₁ ≤ ρ^⌊t/N⌋ ‖μ − π‖₁` with
+  `ρ < 1` (Doeblin minorisation; `ℓ¹` = 2 × total variation), stated without limits so that it
+  holds over any linearly ordered field.
+
+What is **not** here: convergence for irreducible but *periodic* kernels (only Cesàro averages
+converge there); see `design_notes/C19.md`.
 -/
 
 open Finset
@@ -123,6 +131,15 @@ theorem toggled_iter_even {K : α → α → R} (p : α → Bool)
   rw [← iter_mul]
   exact conserved_iter p (toggled_iter_two p h) k
 
+/-- … and every odd number of steps toggles it (period 2). -/
+theorem toggled_iter_odd {K : α → α → R} (p : α → Bool)
+    (h : ∀ x y, K x y ≠ 0 → p y = !p x) (k : ℕ) :
+    ∀ x y, iter K (2 * k + 1) x y ≠ 0 → p y = !p x := by
+  intro x y hxy
+  rw [iter_succ] at hxy
+  obtain ⟨b, _, hb⟩ := Finset.exists_ne_zero_of_sum_ne_zero hxy
+  rw [h b y (right_ne_zero_of_mul hb), toggled_iter_even p h k x b (left_ne_zero_of_mul hb)]
+
 /-- **Restriction to a level set.**  If `K` conserves `p` then an invariant weight cut down to
 one level set `{p = c}` is again invariant: with a non-constant conserved quantity the invariant
 weight is not unique. -/
@@ -196,7 +213,7 @@ theorem comp_pos (hK : Nonneg K) (hL : Nonneg L) {x y z : α} (h1 : 0 < K x y) (
 theorem exists_of_comp_pos (hK : Nonneg K) (hL : Nonneg L) {x z : α} (h : 0 < comp K L x z) :
     ∃ y, 0 < K x y ∧ 0 < L y z := by
   by_contra hne
-  push_neg at hne
+  push Not at hne
   have hle : comp K L x z ≤ 0 := by
     refine Finset.sum_nonpos (fun b _ => ?_)
     by_cases hb : 0 < K x b
@@ -278,6 +295,14 @@ theorem invariant_smul_sub {π μ : α → R} (hπ : Invariant π K) (hμ : Inva
         exact Finset.sum_congr rfl (fun a _ => by ring)
     _ = r * π b - μ b := by rw [hπ b, hμ b]
 
+/-- rescaling an invariant weight keeps it invariant -/
+theorem invariant_div_const {π : α → R} (hπ : Invariant π K) (c : R) :
+    Invariant (fun x => π x / c) K := by
+  intro b
+  show ∑ a, π a / c * K a b = π b / c
+  rw [← hπ b, Finset.sum_div]
+  exact Finset.sum_congr rfl (fun a _ => by ring)
+
 /-- **(b) Uniqueness up to scale**, without any sign condition on `μ`: every invariant weight
 of an irreducible non-negative kernel is a multiple of a positive invariant weight
 (maximum-ratio argument: with `r = max μ/π`, `r π − μ` is a non-negative invariant weight that
@@ -314,7 +339,7 @@ theorem invariant_unique (hK : Nonneg K) (hirr : Irreducible K) {π μ : α → 
   · have hZ : 0 < ∑ x, π x :=
       Finset.sum_pos (fun x _ => hpos x) Finset.univ_nonempty
     have h1 : r * ∑ x, π x = ∑ x, π x := by
-      rw [← hsum, Finset.mul_sum]
+      rw [Finset.mul_sum, ← hsum]
       exact Finset.sum_congr rfl (fun x _ => (hr x).symm)
     have hr1 : r = 1 := by
       have : (r - 1) * ∑ x, π x = 0 := by rw [sub_mul, h1, one_mul, sub_self]
@@ -359,7 +384,7 @@ theorem irreducible_of_dominates (hL : Nonneg L) (hirr : Irreducible L) {c : R} 
   have hK : Nonneg K := fun x y => le_trans (mul_nonneg hc.le (hL x y)) (hdom x y)
   rw [irreducible_iff_reach hK]
   intro x y
-  refine Relation.ReflTransGen.mono (fun a b hab => ?_) ((irreducible_iff_reach hL).mp hirr x y)
+  refine Relation.ReflTransGen.mono (fun a b hab => ?_) x y ((irreducible_iff_reach hL).mp hirr x y)
   exact lt_of_lt_of_le (mul_pos hc hab) (hdom a b)
 
 /-- "with probability `p > 0` do `K`": irreducible as soon as `K` is -/
@@ -404,7 +429,7 @@ theorem irreducible_iter_of_odd (hK : Nonneg K) (hirr : Irreducible K)
     (hsym : ∀ x y, 0 < K x y → 0 < K y x) (k : ℕ) : Irreducible (iter K (2 * k + 1)) := by
   rw [irreducible_iff_reach (nonneg_iter hK _)]
   intro x y
-  exact Relation.ReflTransGen.mono (fun a b hab => iter_odd_pos_of_step hK hsym hab k)
+  exact Relation.ReflTransGen.mono (fun a b hab => iter_odd_pos_of_step hK hsym hab k) x y
     ((irreducible_iff_reach hK).mp hirr x y)
 
 /-- **A non-constant conserved quantity makes the kernel reducible.** -/
@@ -414,7 +439,235 @@ theorem not_irreducible_of_conserved {β : Type*} (p : α → β)
   obtain ⟨n, hn⟩ := hirr x y
   exact hxy (conserved_iter p h n x y hn.ne')
 
+/-- **Conserved quantity ⇒ the invariant law is not unique.**  If `K` conserves a quantity `p`
+taking two different values and `π > 0` is invariant, then `π` restricted to one level set and
+normalised is an invariant probability vector different from `π / Σπ`. -/
+theorem exists_other_invariant_prob {β : Type*} [DecidableEq β] (p : α → β)
+    (h : ∀ x y, K x y ≠ 0 → p y = p x) {π : α → R} (hπ : Invariant π K) (hpos : ∀ x, 0 < π x)
+    {x0 x1 : α} (hne : p x1 ≠ p x0) :
+    ∃ μ : α → R, (∀ x, 0 ≤ μ x) ∧ ∑ x, μ x = 1 ∧ Invariant μ K ∧
+      μ ≠ fun x => π x / ∑ y, π y := by
+  have hμ0 : ∀ x, 0 ≤ (if p x = p x0 then π x else 0) := fun x => by
+    split_ifs
+    · exact (hpos x).le
+    · exact le_rfl
+  have hZ : 0 < ∑ x, (if p x = p x0 then π x else 0) :=
+    lt_of_lt_of_le (by rw [if_pos rfl]; exact hpos x0)
+      (Finset.single_le_sum (f := fun x => if p x = p x0 then π x else 0)
+        (fun x _ => hμ0 x) (Finset.mem_univ x0))
+  have hinv := invariant_restrict p h hπ (p x0)
+  refine ⟨fun x => (if p x = p x0 then π x else 0) / ∑ y, (if p y = p x0 then π y else 0),
+    fun x => div_nonneg (hμ0 x) hZ.le, ?_, ?_, ?_⟩
+  · rw [← Finset.sum_div, div_self hZ.ne']
+  · intro b
+    have := hinv b
+    simp only at this ⊢
+    rw [← this, Finset.sum_div]
+    exact Finset.sum_congr rfl (fun a _ => by ring)
+  · intro heq
+    have h1 := congrFun heq x1
+    simp only [if_neg hne, zero_div] at h1
+    have hS : 0 < ∑ y, π y :=
+      lt_of_lt_of_le (hpos x0)
+        (Finset.single_le_sum (f := π) (fun x _ => (hpos x).le) (Finset.mem_univ x0))
+    exact absurd h1.symm (div_pos (hpos x1) hS).ne'
+
 end Order
+
+/-! ## Primitive kernels and geometric convergence in `ℓ¹` (= 2 × total variation) -/
+
+section Converge
+
+variable {α : Type*} [Fintype α] [DecidableEq α]
+variable {R : Type*} [Field R] [LinearOrder R] [IsStrictOrderedRing R]
+variable {K L : α → α → R}
+
+/-- **Primitivity** (irreducible + aperiodic): from some length on, all `m`-step transition
+probabilities are positive. -/
+def Primitive (K : α → α → R) : Prop := ∃ N, ∀ m, N ≤ m → ∀ x y, 0 < iter K m x y
+
+theorem Primitive.irreducible (h : Primitive K) : Irreducible K := by
+  obtain ⟨N, hN⟩ := h
+  exact fun x y => ⟨N, hN N le_rfl x y⟩
+
+/-- an irreducible non-negative kernel with one positive holding probability is primitive -/
+theorem primitive_of_loop (hK : Nonneg K) (hirr : Irreducible K) {s : α} (hs : 0 < K s s) :
+    Primitive K := by
+  choose a ha using fun x => hirr x s
+  choose b hb using fun y => hirr s y
+  refine ⟨Finset.univ.sup a + Finset.univ.sup b, fun m hm x y => ?_⟩
+  have h1 : a x ≤ Finset.univ.sup a := Finset.le_sup (f := a) (Finset.mem_univ x)
+  have h2 : b y ≤ Finset.univ.sup b := Finset.le_sup (f := b) (Finset.mem_univ y)
+  have hlen : m = a x + (m - a x - b y) + b y := by omega
+  rw [hlen]
+  exact iter_pos_trans hK (iter_pos_trans hK (ha x) (iter_loop_pos hK hs _)) (hb y)
+
+/-- iterates of a primitive kernel are primitive -/
+theorem primitive_iter (h : Primitive K) {ns : ℕ} (hns : 1 ≤ ns) : Primitive (iter K ns) := by
+  obtain ⟨N, hN⟩ := h
+  refine ⟨N, fun m hm x y => ?_⟩
+  rw [iter_mul]
+  exact hN _ (le_trans hm (Nat.le_mul_of_pos_left m hns)) x y
+
+/-- entrywise domination passes to the iterates -/
+theorem iter_dominates (hL : Nonneg L) {c : R} (hc : 0 ≤ c) (hdom : ∀ x y, c * L x y ≤ K x y) :
+    ∀ m x y, c ^ m * iter L m x y ≤ iter K m x y := by
+  have hK : Nonneg K := fun x y => le_trans (mul_nonneg hc (hL x y)) (hdom x y)
+  intro m
+  induction m with
+  | zero => intro x y; simp
+  | succ m ih =>
+    intro x y
+    simp only [iter_succ, comp]
+    rw [Finset.mul_sum]
+    refine Finset.sum_le_sum (fun b _ => ?_)
+    calc c ^ (m + 1) * (iter L m x b * L b y) = (c ^ m * iter L m x b) * (c * L b y) := by ring
+      _ ≤ iter K m x b * K b y :=
+        mul_le_mul (ih x b) (hdom b y) (mul_nonneg hc (hL b y)) (nonneg_iter hK m x b)
+
+/-- a kernel dominating a positive multiple of a primitive non-negative kernel is primitive -/
+theorem primitive_of_dominates (hL : Nonneg L) (h : Primitive L) {c : R} (hc : 0 < c)
+    (hdom : ∀ x y, c * L x y ≤ K x y) : Primitive K := by
+  obtain ⟨N, hN⟩ := h
+  refine ⟨N, fun m hm x y => ?_⟩
+  exact lt_of_lt_of_le (mul_pos (pow_pos hc m) (hN m hm x y)) (iter_dominates hL hc.le hdom m x y)
+
+theorem primitive_mix_left {p : R} (hK : Nonneg K) (hL : Nonneg L) (h : Primitive K)
+    (hp0 : 0 < p) (hp1 : p ≤ 1) : Primitive (mix p K L) :=
+  primitive_of_dominates hK h hp0 (fun x y => by
+    have := mul_nonneg (sub_nonneg.mpr hp1) (hL x y)
+    simp only [mix]
+    linarith)
+
+/-- the law after one step: `(ν K)(y) = Σ_x ν x · K x y` (for signed `ν` as well) -/
+def push (ν : α → R) (K : α → α → R) : α → R := fun y => ∑ x, ν x * K x y
+
+/-- `ℓ¹` norm; for the difference of two probability vectors it is twice their total-variation
+distance -/
+def l1 (ν : α → R) : R := ∑ x, |ν x|
+
+theorem invariant_iff_push {π : α → R} : Invariant π K ↔ push π K = π :=
+  ⟨fun h => funext h, fun h b => congrFun h b⟩
+
+theorem push_comp (ν : α → R) (K L : α → α → R) : push (push ν K) L = push ν (comp K L) := by
+  funext z
+  simp only [push, comp, Finset.sum_mul, Finset.mul_sum, mul_assoc]
+  exact Finset.sum_comm
+
+theorem push_iter_add (ν : α → R) (K : α → α → R) (a b : ℕ) :
+    push ν (iter K (a + b)) = push (push ν (iter K a)) (iter K b) := by
+  rw [iter_add, push_comp]
+
+theorem push_sub (μ π : α → R) (K : α → α → R) :
+    push (fun x => μ x - π x) K = fun y => push μ K y - push π K y := by
+  funext y
+  simp only [push, sub_mul, Finset.sum_sub_distrib]
+
+/-- a probability-conserving kernel conserves the total mass -/
+theorem sum_push (hK : RowSum K) (ν : α → R) : ∑ y, push ν K y = ∑ x, ν x := by
+  unfold push
+  rw [Finset.sum_comm]
+  exact Finset.sum_congr rfl (fun x _ => by rw [← Finset.mul_sum, hK x, mul_one])
+
+/-- `ℓ¹` bound for a non-negative matrix with constant row sums `c` -/
+theorem l1_push_le_rowsum {M : α → α → R} (hM : ∀ x y, 0 ≤ M x y) {c : R}
+    (hc : ∀ x, ∑ y, M x y = c) (ν : α → R) : l1 (push ν M) ≤ c * l1 ν := by
+  unfold l1 push
+  calc ∑ y, |∑ x, ν x * M x y| ≤ ∑ y, ∑ x, |ν x| * M x y :=
+        Finset.sum_le_sum (fun y _ => (Finset.abs_sum_le_sum_abs _ _).trans
+          (le_of_eq (Finset.sum_congr rfl (fun x _ => by rw [abs_mul, abs_of_nonneg (hM x y)]))))
+    _ = ∑ x, ∑ y, |ν x| * M x y := Finset.sum_comm
+    _ = ∑ x, |ν x| * c := Finset.sum_congr rfl (fun x _ => by rw [← Finset.mul_sum, hc x])
+    _ = c * ∑ x, |ν x| := by rw [← Finset.sum_mul, mul_comm]
+
+/-- a stochastic kernel never increases the `ℓ¹` distance -/
+theorem l1_push_le (hK : Stochastic K) (ν : α → R) : l1 (push ν K) ≤ l1 ν := by
+  have := l1_push_le_rowsum hK.1 hK.2 ν
+  rwa [one_mul] at this
+
+/-- **Doeblin contraction.**  If all entries of the stochastic kernel `P` are `≥ ε`, a signed
+weight of total mass zero shrinks by the factor `1 − |α|·ε` in `ℓ¹`. -/
+theorem l1_push_le_of_minor {P : α → α → R} (hP : Stochastic P) {ε : R}
+    (hε : ∀ x y, ε ≤ P x y) (ν : α → R) (h0 : ∑ x, ν x = 0) :
+    l1 (push ν P) ≤ (1 - (Fintype.card α : R) * ε) * l1 ν := by
+  have hpush : push ν P = push ν (fun x y => P x y - ε) := by
+    funext y
+    simp only [push, mul_sub, Finset.sum_sub_distrib]
+    rw [← Finset.sum_mul, h0, zero_mul, sub_zero]
+  rw [hpush]
+  refine l1_push_le_rowsum (fun x y => sub_nonneg.mpr (hε x y)) (fun x => ?_) ν
+  rw [Finset.sum_sub_distrib, hP.2 x, Finset.sum_const, Finset.card_univ, nsmul_eq_mul]
+
+/-- the contraction factor is a number in `[0, 1]` -/
+theorem minor_factor_nonneg {P : α → α → R} (hP : Stochastic P) {ε : R}
+    (hε : ∀ x y, ε ≤ P x y) : 0 ≤ 1 - (Fintype.card α : R) * ε := by
+  rcases isEmpty_or_nonempty α with he | ⟨⟨x⟩⟩
+  · simp [Fintype.card_eq_zero]
+  · have : ∑ _y : α, ε ≤ ∑ y, P x y := Finset.sum_le_sum (fun y _ => hε x y)
+    rw [hP.2 x, Finset.sum_const, Finset.card_univ, nsmul_eq_mul] at this
+    linarith
+
+/-- `m` blocks of `N` steps contract a mass-zero weight by `(1 − |α| ε)^m`. -/
+theorem l1_push_iter_block (hK : Stochastic K) {N : ℕ} {ε : R}
+    (hε : ∀ x y, ε ≤ iter K N x y) (ν : α → R) (h0 : ∑ x, ν x = 0) :
+    ∀ m, l1 (push ν (iter K (N * m))) ≤ (1 - (Fintype.card α : R) * ε) ^ m * l1 ν := by
+  have hP := stochastic_iter hK N
+  have hρ := minor_factor_nonneg hP hε
+  intro m
+  induction m with
+  | zero =>
+    have : push ν (iter K (N * 0)) = ν := by
+      funext y
+      simp [push, idK]
+    rw [this, pow_zero, one_mul]
+  | succ m ih =>
+    rw [Nat.mul_succ, push_iter_add]
+    have hmass : ∑ x, push ν (iter K (N * m)) x = 0 := by
+      rw [sum_push (rowSum_iter hK.2 _), h0]
+    calc l1 (push (push ν (iter K (N * m))) (iter K N))
+        ≤ (1 - (Fintype.card α : R) * ε) * l1 (push ν (iter K (N * m))) :=
+          l1_push_le_of_minor hP hε _ hmass
+      _ ≤ (1 - (Fintype.card α : R) * ε) * ((1 - (Fintype.card α : R) * ε) ^ m * l1 ν) :=
+          mul_le_mul_of_nonneg_left ih hρ
+      _ = (1 - (Fintype.card α : R) * ε) ^ (m + 1) * l1 ν := by ring
+
+/-- … and the remaining `t mod N` steps do not increase the distance. -/
+theorem l1_push_iter_le (hK : Stochastic K) {N : ℕ} {ε : R}
+    (hε : ∀ x y, ε ≤ iter K N x y) (ν : α → R) (h0 : ∑ x, ν x = 0) (t : ℕ) :
+    l1 (push ν (iter K t)) ≤ (1 - (Fintype.card α : R) * ε) ^ (t / N) * l1 ν := by
+  have ht : t = N * (t / N) + t % N := (Nat.div_add_mod t N).symm
+  conv_lhs => rw [ht, push_iter_add]
+  exact le_trans (l1_push_le (stochastic_iter hK _) _) (l1_push_iter_block hK hε ν h0 _)
+
+/-- **Geometric convergence to the invariant law.**  `K` stochastic and primitive, `π`
+invariant: there are a block length `N ≥ 1` and a rate `ρ ∈ [0, 1)` such that for **every**
+start vector `μ` with the mass of `π` (any sign) and every number `t` of steps
+`‖μ Kᵗ − π‖₁ ≤ ρ^⌊t/N⌋ ‖μ − π‖₁`. -/
+theorem geometric_convergence (hK : Stochastic K) (hprim : Primitive K) {π : α → R}
+    (hπ : Invariant π K) :
+    ∃ N : ℕ, 1 ≤ N ∧ ∃ ρ : R, 0 ≤ ρ ∧ ρ < 1 ∧ ∀ μ : α → R, ∑ x, μ x = ∑ x, π x → ∀ t,
+      l1 (fun y => push μ (iter K t) y - π y) ≤ ρ ^ (t / N) * l1 (fun y => μ y - π y) := by
+  rcases isEmpty_or_nonempty α with he | hne
+  · exact ⟨1, le_rfl, 0, le_rfl, zero_lt_one, fun μ _ t => by simp [l1]⟩
+  · obtain ⟨N0, hN0⟩ := hprim
+    have hpos : ∀ x y, 0 < iter K (max N0 1) x y := hN0 _ (le_max_left _ _)
+    obtain ⟨p0, _, hmin⟩ := Finset.exists_min_image (Finset.univ : Finset (α × α))
+      (fun p => iter K (max N0 1) p.1 p.2) Finset.univ_nonempty
+    have hε : ∀ x y, iter K (max N0 1) p0.1 p0.2 ≤ iter K (max N0 1) x y :=
+      fun x y => hmin (x, y) (Finset.mem_univ _)
+    have hε0 : 0 < iter K (max N0 1) p0.1 p0.2 := hpos _ _
+    have hcard : (0 : R) < (Fintype.card α : R) := by exact_mod_cast Fintype.card_pos
+    refine ⟨max N0 1, le_max_right _ _, 1 - (Fintype.card α : R) * iter K (max N0 1) p0.1 p0.2,
+      minor_factor_nonneg (stochastic_iter hK _) hε, by nlinarith [mul_pos hcard hε0], ?_⟩
+    intro μ hsum t
+    have h0 : ∑ x, (μ x - π x) = 0 := by rw [Finset.sum_sub_distrib, hsum, sub_self]
+    have := l1_push_iter_le hK hε (fun x => μ x - π x) h0 t
+    rw [push_sub] at this
+    have hπt : push π (iter K t) = π := invariant_iff_push.mp (invariant_iter hπ t)
+    rw [hπt] at this
+    exact this
+
+end Converge
 
 /-! ## Instantiation checks and a non-vacuity example -/
 
